@@ -164,7 +164,8 @@ func mwReplay(in io.Reader, raw bool, args []string) (*Summary, error) {
 				x1, x2 := materialize(mc.T, al.R, f)
 				rng.Shuffle(len(x1), func(i, j int) { x1[i], x1[j] = x1[j], x1[i] })
 				rng.Shuffle(len(x2), func(i, j int) { x2[i], x2[j] = x2[j], x2[i] })
-				s1, s2 := append([]float64{}, x1...), append([]float64{}, x2...)
+				x1, ok1 := guarded(x1)
+				x2, ok2 := guarded(x2)
 				for _, alt := range mwAlts {
 					sum.Checks++
 					res, err := stats.MannWhitneyUTest(x1, x2, alt)
@@ -212,8 +213,8 @@ func mwReplay(in io.Reader, raw bool, args []string) (*Summary, error) {
 						}
 					}
 				}
-				if !bitsEqual(x1, s1) || !bitsEqual(x2, s2) {
-					sum.viol("argument-modified", c, "alloc %v: MannWhitneyUTest changed its arguments", al.R)
+				if !ok1() || !ok2() {
+					sum.viol("argument-modified", c, "alloc %v: MannWhitneyUTest changed its arguments (or the spare capacity behind them)", al.R)
 				}
 			}
 		}
@@ -365,11 +366,12 @@ func mwCall(ev *mwEvent, x1, x2 []int64, f func(int64) float64, alt int, rng *ra
 		rng.Shuffle(len(a), func(i, j int) { a[i], a[j] = a[j], a[i] })
 		rng.Shuffle(len(b), func(i, j int) { b[i], b[j] = b[j], b[i] })
 	}
-	sa, sb := append([]float64{}, a...), append([]float64{}, b...)
+	a, oka := guarded(a)
+	b, okb := guarded(b)
 	res, err := stats.MannWhitneyUTest(a, b, stats.LocationHypothesis(alt))
 	ev.X1, ev.X2, ev.Alt = x1, x2, alt
 	ev.P = sbig{0, []int{}}
-	if bitsEqual(a, sa) && bitsEqual(b, sb) {
+	if oka() && okb() {
 		ev.ArgsOK = 1
 	}
 	switch {
